@@ -226,9 +226,104 @@ async fn converge(seed: u64) -> String {
     if bad.is_empty() { "full converged".into() } else { format!("full DIVERGED {}", bad.join(",")) }
 }
 
+/// joinwrite: nodes 1 and 2 with stores; node 1 writes at Consistency::All every 40 ms, all the time; node 3 joins with a store.
+/// A prompt subscriber of node 1's membership changes records WHEN node 1 was told of node 3.  Every write node 1 ISSUED after
+/// that moment and that returned Ok must be readable on node 3 the moment it returned (C06: "every other member for
+/// All" - the members are those of the moment the write is issued; a selection that outlives a join is too small).
+async fn joinwrite() -> String {
+    let (a1, a2, a3) = (free_addr(), free_addr(), free_addr());
+    let (Some(n1), Some(n2)) = (connect(1, a1, vec![a2.to_string()]).await, connect(2, a2, vec![a1.to_string()]).await) else {
+        return "full not-started".into();
+    };
+    if n1.wait_for_nodes([2], Duration::from_secs(30)).await.is_err() || n2.wait_for_nodes([1], Duration::from_secs(30)).await.is_err() {
+        return "full not-started".into();
+    }
+    let told: Arc<Mutex<Option<Instant>>> = Arc::new(Mutex::new(None));
+    {
+        let told = told.clone();
+        let mut changes = n1.membership_changes();
+        tokio::spawn(async move {
+            while let Some(change) = changes.next().await {
+                if change.joined.iter().any(|m| m.node_id == 3) {
+                    let mut t = told.lock().unwrap();
+                    if t.is_none() { *t = Some(Instant::now()); }
+                }
+            }
+        });
+    }
+    let hour = Duration::from_secs(3600);
+    let Ok(s1) = n1.add_extension(EventuallyConsistentStoreExtension::new(MemStore::default()).with_repair_interval(hour)).await else {
+        return "full not-started".into();
+    };
+    let Ok(s2) = n2.add_extension(EventuallyConsistentStoreExtension::new(MemStore::default()).with_repair_interval(hour)).await else {
+        return "full not-started".into();
+    };
+    let _keep = s2;
+    let h1 = s1.handle_with_keyspace("fs");
+    tokio::time::sleep(Duration::from_millis(1200)).await;
+    // the writer: (id, issued at, returned Ok)
+    let log: Arc<Mutex<Vec<(u64, Instant, bool)>>> = Arc::new(Mutex::new(Vec::new()));
+    let stop = Arc::new(std::sync::atomic::AtomicBool::new(false));
+    let h3slot: Arc<Mutex<Option<ReplicatedKeyspaceHandle<MemStore>>>> = Arc::new(Mutex::new(None));
+    let missing = Arc::new(std::sync::atomic::AtomicU64::new(0));
+    let judged = Arc::new(std::sync::atomic::AtomicU64::new(0));
+    let writer = {
+        let (log, stop, told, h3slot, missing, judged) = (log.clone(), stop.clone(), told.clone(), h3slot.clone(), missing.clone(), judged.clone());
+        tokio::spawn(async move {
+            let mut id = 1000u64;
+            while !stop.load(std::sync::atomic::Ordering::SeqCst) {
+                id += 1;
+                // read BEFORE the write starts: the selector is given a membership before the subscribers are (set_nodes precedes
+                // the publication in the node's membership watcher), so it already knows node 3 when this is set
+                let t = *told.lock().unwrap();
+                let issued = Instant::now();
+                let ok = h1.put(id, vec![id as u8], Consistency::All).await.is_ok();
+                log.lock().unwrap().push((id, issued, ok));
+                if let (true, Some(_)) = (ok, t) {
+                    {
+                        let h3 = h3slot.lock().unwrap().clone();
+                        if let Some(h3) = h3 {
+                            judged.fetch_add(1, std::sync::atomic::Ordering::SeqCst);
+                            if !matches!(h3.get(id).await, Ok(Some(_))) {
+                                missing.fetch_add(1, std::sync::atomic::Ordering::SeqCst);
+                            }
+                        }
+                    }
+                }
+                tokio::time::sleep(Duration::from_millis(40)).await;
+            }
+        })
+    };
+    // let the writer establish its rhythm, then node 3 joins - at an offset that differs from run to run
+    tokio::time::sleep(Duration::from_millis(700 + (a3.port() as u64 % 7) * 130)).await;
+    let Some(n3) = connect(3, a3, vec![a1.to_string()]).await else {
+        stop.store(true, std::sync::atomic::Ordering::SeqCst);
+        return "full not-started".into();
+    };
+    let Ok(s3) = n3.add_extension(EventuallyConsistentStoreExtension::new(MemStore::default()).with_repair_interval(hour)).await else {
+        stop.store(true, std::sync::atomic::Ordering::SeqCst);
+        return "full not-started".into();
+    };
+    *h3slot.lock().unwrap() = Some(s3.handle_with_keyspace("fs"));
+    let deadline = Instant::now() + Duration::from_secs(30);
+    while told.lock().unwrap().is_none() && Instant::now() < deadline {
+        tokio::time::sleep(Duration::from_millis(50)).await;
+    }
+    let seen = told.lock().unwrap().is_some();
+    tokio::time::sleep(Duration::from_millis(3200)).await;
+    stop.store(true, std::sync::atomic::Ordering::SeqCst);
+    let _ = writer.await;
+    let writes = log.lock().unwrap().len();
+    n1.shutdown().await;
+    n2.shutdown().await;
+    n3.shutdown().await;
+    format!("full join_seen={} writes={} judged={} missing={}", seen, writes, judged.load(std::sync::atomic::Ordering::SeqCst), missing.load(std::sync::atomic::Ordering::SeqCst))
+}
+
 impl Domain for FullDomain {
     fn op(&mut self, t: &[&str]) -> String {
         match t[0] {
+            "joinwrite" => runtime().block_on(joinwrite()),
             "leave" => runtime().block_on(leave()),
             "rejoin" => runtime().block_on(rejoin()),
             "converge" => runtime().block_on(converge(p_u64(t[1]))),
